@@ -337,7 +337,10 @@ def build_programs(n_random, seed, families=True, targets=False):
         assign_metadata(body, rng)
         # every 8th program is "padded": it first touches 300 global names and creates its managers through a
         # global, so that the instruction that starts a with line carries an EXTENDED_ARG prefix
-        out.append({"body": body, "async": has_async(body), "nm": nm, "pad": len(out) % 8 == 5})
+        # every 8th program (another residue) is a CLOSURE whose body contains a comprehension that re-uses one of its
+        # free-variable names as iteration variable (3.12 inlines the comprehension: the name is in co_varnames AND in
+        # co_freevars, with a slot each)
+        out.append({"body": body, "async": has_async(body), "nm": nm, "pad": len(out) % 8 == 5, "closure": len(out) % 8 == 3})
     return out
 
 
@@ -395,16 +398,23 @@ def render(prog, carrier, running=False, first_line=1, py=(3, 12)):
     r.lines = [""] * (first_line - 1)
     head = {"gen": "def prog(env):", "func": "def prog(env):", "coro": "async def prog(env):",
             "agen": "async def prog(env):", "ageny": "async def prog(env):"}[carrier]
-    r.lines.append(head)
-    r.lines.append("    kname = 'kn'; kzero = 0; unset = None")
+    base = 1 if prog.get("closure") else 0
+    B = "    " * base
+    if base:
+        r.lines.append("def _factory():")
+        r.lines.append("    cvar = 0; cother = 1")
+    r.lines.append(B + head)
+    r.lines.append(B + "    kname = 'kn'; kzero = 0; unset = None")
+    if base:
+        r.lines.append(B + "    _q = [cvar for cvar in (kzero,)]; _w = (cvar, cother)")
     pad = bool(prog.get("pad"))
     if pad:
-        r.lines.append("    _pad = [" + ", ".join("G%d" % k for k in range(300)) + "]")
-    r.lines.append("    def lfn(*a): return env.ns")
+        r.lines.append(B + "    _pad = [" + ", ".join("G%d" % k for k in range(300)) + "]")
+    r.lines.append(B + "    def lfn(*a): return env.ns")
     if carrier in ("agen", "ageny"):
-        r.lines.append("    if env.never: yield 0")
+        r.lines.append(B + "    if env.never: yield 0")
     if carrier == "gen" and running:
-        r.lines.append("    if env.never: yield 0")
+        r.lines.append(B + "    if env.never: yield 0")
 
     def emit(ind, text):
         r.lines.append("    " * ind + text)
@@ -534,5 +544,8 @@ def render(prog, carrier, running=False, first_line=1, py=(3, 12)):
         else:
             raise ValueError(k)
 
-    block(prog["body"], 1)
+    block(prog["body"], 1 + base)
+    if base:
+        r.lines.append("    return prog")
+        r.lines.append("prog = _factory()")
     return r
